@@ -810,7 +810,7 @@ func (h *hist) do(act string) bool {
 			anyF1 := false
 			for _, x := range d {
 				present, deleted, suicided, _, _ := u.s.VerifObj(addr(x))
-				shape := acctField(view, x) == fmt.Sprintf("%d:-", x) && acctField(rv, x) == fmt.Sprintf("%d:0,0,-,s,0,0,0", x) && present && deleted && !suicided
+				shape := acctField(view, x) == fmt.Sprintf("%d:-", x) && strings.HasPrefix(acctField(rv, x), fmt.Sprintf("%d:0,0,-,s,", x)) && present && deleted && !suicided
 				switch {
 				case shape && u.revWr[x]:
 					anyF1 = true
